@@ -56,6 +56,7 @@ func certParam(fn *ssa.Function) *ssa.Parameter {
 type certSource struct {
 	param *ssa.Parameter // the parameter (certificate itself, or the carrier object)
 	field string         // "" or the FieldID of the certificate field in the carrier
+	free  *ssa.FreeVar   // a function literal that captured the certificate
 }
 
 func isCertType(t types.Type) bool { return ir.NamedTypeID(t) == "crypto/x509.Certificate" }
@@ -74,6 +75,18 @@ func certSourceOf(fn *ssa.Function) (certSource, bool) {
 	for _, p := range fn.Params {
 		if isCertType(p.Type()) {
 			add(certSource{param: p})
+		}
+	}
+	for _, fv := range fn.FreeVars {
+		// captured by value, or (the usual lowering) as the address of the variable
+		t := fv.Type()
+		if pp, isPP := t.Underlying().(*types.Pointer); isPP {
+			if _, inner := pp.Elem().Underlying().(*types.Pointer); inner {
+				t = pp.Elem()
+			}
+		}
+		if isCertType(t) {
+			add(certSource{free: fv})
 		}
 	}
 	for _, f := range withAnon(fn) {
@@ -109,6 +122,12 @@ func isCallerCert(fn *ssa.Function, v ssa.Value) bool {
 		return false
 	}
 	v = ir.StripConv(v)
+	if cs.free != nil {
+		if ld, isLd := v.(*ssa.UnOp); isLd && ld.Op == token.MUL && ld.X == ssa.Value(cs.free) {
+			return true
+		}
+		return v == ssa.Value(cs.free)
+	}
 	if cs.field == "" {
 		return v == ssa.Value(cs.param)
 	}
@@ -161,6 +180,47 @@ func certArgsOK(caller *ssa.Function, call ssa.CallInstruction) bool {
 		}
 	}
 	cs, ok := certSourceOf(callee)
+	if ok && cs.free != nil {
+		// a function literal that captured its certificate: the captured value must be the
+		// caller's certificate — bound directly, or through the constructor that made the literal
+		b := ir.FreeVarBinding(cs.free)
+		// the captured variable's cell: what was stored in it
+		if a, isA := b.(*ssa.Alloc); isA {
+			var val ssa.Value
+			n := 0
+			for _, r := range *a.Referrers() {
+				if st, isSt := r.(*ssa.Store); isSt && st.Addr == ssa.Value(a) {
+					val, n = st.Val, n+1
+				}
+			}
+			if n != 1 {
+				return false
+			}
+			b = val
+		}
+		switch fv := call.Common().Value.(type) {
+		case *ssa.MakeClosure:
+			for k, f := range callee.FreeVars {
+				if f == cs.free && k < len(fv.Bindings) {
+					return isCallerCert(caller, fv.Bindings[k])
+				}
+			}
+			return false
+		case *ssa.Call:
+			ctor := fv.Common().StaticCallee()
+			bp, isP := b.(*ssa.Parameter)
+			if ctor == nil || !isP || bp.Parent() != ctor {
+				return false
+			}
+			for k, p := range ctor.Params {
+				if p == bp && k < len(fv.Call.Args) {
+					return isCallerCert(caller, fv.Call.Args[k])
+				}
+			}
+			return false
+		}
+		return b != nil && isCallerCert(caller, b)
+	}
 	if !ok || cs.field == "" {
 		return true // no carrier: the arguments above are all there is
 	}
@@ -219,7 +279,7 @@ func acceptingReturnsMode(fn *ssa.Function, errMode bool) []*ssa.Return {
 			}
 			out = append(out, r)
 		case rs.Len() > 0 && isBoolType(rs.At(0).Type()):
-			if k, ok := r.Results[0].(*ssa.Const); ok && k.Value != nil && !constant.BoolVal(k.Value) {
+			if k, ok := effectiveResult(fn, r, 0).(*ssa.Const); ok && k.Value != nil && !constant.BoolVal(k.Value) {
 				continue
 			}
 			out = append(out, r)
@@ -230,7 +290,7 @@ func acceptingReturnsMode(fn *ssa.Function, errMode bool) []*ssa.Return {
 			out = append(out, r)
 		case rs.Len() == 1 && nilable(rs.At(0).Type()):
 			// a lookup: a non-nil result is the accepting outcome
-			if ir.IsNilConst(r.Results[0]) {
+			if ir.IsNilConst(effectiveResult(fn, r, 0)) {
 				continue
 			}
 			out = append(out, r)
@@ -416,9 +476,14 @@ func (e *acceptEngine) evidenceEdges(fn *ssa.Function, f *fact) []ir.Edge {
 
 // holdsAt: fact f holds at return r of fn. witness describes a bypass path.
 func (e *acceptEngine) holdsAt(fn *ssa.Function, r *ssa.Return, f *fact) (bool, string) {
+	// results as stored before the deferred calls run (named results)
+	rres := make([]ssa.Value, len(r.Results))
+	for k := range r.Results {
+		rres[k] = effectiveResult(fn, r, k)
+	}
 	// tail delegation: return g(...)
 	if len(r.Results) > 0 {
-		if call := callOf(r.Results[0]); call != nil {
+		if call := callOf(rres[0]); call != nil {
 			if callee := ir.Callee(call); callee != nil && e.c.P.InLib(callee) && certArgsOK(fn, call) && e.establishes(callee, f) {
 				return true, ""
 			}
@@ -427,9 +492,9 @@ func (e *acceptEngine) holdsAt(fn *ssa.Function, r *ssa.Return, f *fact) (bool, 
 	// an error result that is itself the outcome of the establishing step
 	// (`return cert.CheckSignature(...)`, `return check.run(...)`): nil means accepted
 	errTail := false
-	if n := len(r.Results); n > 0 && isErrorType(r.Results[n-1].Type()) && !(n > 1 && isBoolType(r.Results[0].Type())) {
-		if _, isConst := r.Results[n-1].(*ssa.Const); !isConst {
-			ev := r.Results[n-1]
+	if n := len(r.Results); n > 0 && isErrorType(rres[n-1].Type()) && !(n > 1 && isBoolType(rres[0].Type())) {
+		if _, isConst := rres[n-1].(*ssa.Const); !isConst {
+			ev := rres[n-1]
 			if f.direct(e.c, fn, ir.CondEdge{Cond: ev, Truth: true}) {
 				errTail = true
 			} else if call, em := e.observe(fn, ir.CondEdge{Cond: ev, Truth: true}); call != nil && certArgsOK(fn, call) && e.establishesMode(ir.Callee(call), f, em) {
@@ -475,13 +540,13 @@ func (e *acceptEngine) holdsAt(fn *ssa.Function, r *ssa.Return, f *fact) (bool, 
 	// edges carry `false` or the last conjunct): each edge that may carry true
 	// is judged on its own — the value on the edge is itself a condition that
 	// holds when the function accepts
-	if len(r.Results) > 0 && isBoolType(r.Results[0].Type()) {
+	if len(r.Results) > 0 && isBoolType(rres[0].Type()) {
 		type edgeVal struct {
 			val  ssa.Value
 			pred *ssa.BasicBlock
 		}
 		var evs []edgeVal
-		switch x := r.Results[0].(type) {
+		switch x := rres[0].(type) {
 		case *ssa.Phi:
 			for k, ev := range x.Edges {
 				evs = append(evs, edgeVal{ev, x.Block().Preds[k]})
@@ -566,10 +631,82 @@ func (e *acceptEngine) Require(rule string, fn *ssa.Function, facts []*fact) {
 				ok, wit, where = false, w, e.c.IPos(r)
 			}
 		}
+		if !ok {
+			// acceptance computed through function values that the path engine does not
+			// follow (callbacks of library functions, generic helpers that take the
+			// predicate as a parameter): the fact may hold, it is not decided here
+			if at := e.unfollowedCall(fn); at != "" {
+				e.c.R.Infof(rule+"."+f.id, name(fn), f.id, e.c.Pos(fn.Pos()), "not decided for this shape: "+f.what+" — the accepting outcome depends on a function value the path engine does not follow ("+at+")")
+				continue
+			}
+		}
 		e.c.R.Check(ok, rule+"."+f.id, name(fn), f.id, e.c.Pos(fn.Pos()),
 			"every path to an accepting return establishes: "+f.what,
 			fmt.Sprintf("accepting return at %s is reachable without it; bypass: %s", where, wit))
 	}
+}
+
+// unfollowedCall looks, in fn and the library functions it statically calls
+// (with their function literals), for a call whose callee is a function value
+// that is not fixed by the code (a func-typed parameter, a table entry) or a
+// call that hands a library function literal to a function outside the
+// library (a callback). Returns where, "" if there is none.
+func (e *acceptEngine) unfollowedCall(fn *ssa.Function) string {
+	seen := map[*ssa.Function]bool{}
+	var at string
+	var walk func(f *ssa.Function, depth int)
+	walk = func(f *ssa.Function, depth int) {
+		if f == nil || seen[f] || depth > 4 || at != "" || f.Blocks == nil {
+			return
+		}
+		seen[f] = true
+		for _, g := range withAnon(f) {
+			instrsOf(g, func(i ssa.Instruction) {
+				call, ok := i.(ssa.CallInstruction)
+				if !ok || at != "" {
+					return
+				}
+				cc := call.Common()
+				if cc.IsInvoke() {
+					return
+				}
+				if _, isB := cc.Value.(*ssa.Builtin); isB {
+					return
+				}
+				callee := ir.Callee(call)
+				if callee == nil {
+					at = "call of a function value at " + e.c.IPos(i)
+					return
+				}
+				if cc.StaticCallee() == nil || strings.HasSuffix(callee.Name(), "$bound") {
+					// a method value / constructed function literal: followed by the resolver, but
+					// what it captured (the certificate, the signer) is not tracked through it
+					if strings.HasSuffix(callee.Name(), "$bound") {
+						at = "call of a method value at " + e.c.IPos(i)
+						return
+					}
+				}
+				if e.c.P.InLib(callee) {
+					walk(callee, depth+1)
+					return
+				}
+				for _, a := range cc.Args {
+					switch x := ir.StripConv(a).(type) {
+					case *ssa.MakeClosure:
+						if cf, isF := x.Fn.(*ssa.Function); isF && e.c.P.InLib(cf) {
+							at = "function literal handed to " + ir.CallID(call) + " at " + e.c.IPos(i)
+						}
+					case *ssa.Function:
+						if e.c.P.InLib(x) {
+							at = "function handed to " + ir.CallID(call) + " at " + e.c.IPos(i)
+						}
+					}
+				}
+			})
+		}
+	}
+	walk(fn, 0)
+	return at
 }
 
 // ---------------------------------------------------------------- fact predicates
@@ -844,3 +981,54 @@ var factDigestAlg = &fact{id: "digest-algorithm", what: "the digest algorithm na
 		}
 		return allSHA(call.Call.Args[0]) && alg(sb) || allSHA(call.Call.Args[1]) && alg(sa)
 	}}
+
+// effectiveResult: result k of return r. With named results and deferred calls
+// go/ssa stores the operands into the result cells, runs the defers and returns
+// the cells' contents; the value that was stored in the return's block is the
+// result unless a deferred closure may overwrite that cell with something other
+// than the rejecting value (false / nil).
+func effectiveResult(fn *ssa.Function, r *ssa.Return, k int) ssa.Value {
+	v := r.Results[k]
+	ld, ok := v.(*ssa.UnOp)
+	if !ok || ld.Op != token.MUL {
+		return v
+	}
+	a, ok := ld.X.(*ssa.Alloc)
+	if !ok {
+		return v
+	}
+	var last *ssa.Store
+	for _, i := range r.Block().Instrs {
+		if st, isSt := i.(*ssa.Store); isSt && st.Addr == ssa.Value(a) {
+			last = st
+		}
+	}
+	if last == nil {
+		return v
+	}
+	if lu, isLd := last.Val.(*ssa.UnOp); isLd && lu.Op == token.MUL && lu.X == ssa.Value(a) {
+		return v // the named result returned as it stands
+	}
+	// deferred closures that write the cell: only rejecting values may be written
+	for _, anon := range fn.AnonFuncs {
+		for _, fv := range anon.FreeVars {
+			if ir.FreeVarBinding(fv) != ssa.Value(a) {
+				continue
+			}
+			bad := false
+			instrsOf(anon, func(i ssa.Instruction) {
+				if st, isSt := i.(*ssa.Store); isSt && st.Addr == ssa.Value(fv) {
+					kc, isK := st.Val.(*ssa.Const)
+					rejecting := isK && (kc.Value == nil || kc.Value.Kind() == constant.Bool && !constant.BoolVal(kc.Value))
+					if !rejecting {
+						bad = true
+					}
+				}
+			})
+			if bad {
+				return v
+			}
+		}
+	}
+	return last.Val
+}
